@@ -80,7 +80,10 @@ def rand_prop(rng, cnt, depth, nested=False):
     if k in ("list", "tuple"):
         return {"p": k, "v": [rand_prop(rng, cnt, depth - 1, True) for _ in range(rng.randint(0, 3))]}
     if k == "dict":
-        return {"p": "dict", "v": [["k%d" % i, rand_prop(rng, cnt, depth - 1, True)] for i in range(rng.randint(0, 3))]}
+        # (keys that mean something as TOP-LEVEL props mean nothing inside a dict value: written like any other key)
+        keys = rng.sample(["k0", "k1", "k2", "style", "className", "class", "children", "key", "ref", "dangerouslySetInnerHTML", "data-x", "aria_label"], rng.randint(0, 3))
+        return {"p": "dict", "v": [[k_, rand_prop(rng, cnt, depth - 1, True) if k_ != "style" or rng.random() < 0.3 else rng.choice([{"p": "str", "v": "compact"}, {"p": "none"}, {"p": "str", "v": "a:b;c:d:e"}, {"p": "num", "v": 2}])]
+                                  for k_ in keys]}
     if k == "expr":
         return {"p": "expr", "v": "__jsx_%d__" % cnt.next()}
     if k == "exprplus":
